@@ -9,9 +9,13 @@ import (
 	"strings"
 	"time"
 
+	"github.com/failsafe-go/failsafe-go"
 	"github.com/failsafe-go/failsafe-go/bulkhead"
 	"github.com/failsafe-go/failsafe-go/circuitbreaker"
+	"github.com/failsafe-go/failsafe-go/fallback"
 	"github.com/failsafe-go/failsafe-go/ratelimiter"
+	"github.com/failsafe-go/failsafe-go/retrypolicy"
+	"github.com/failsafe-go/failsafe-go/verifrt/vrt"
 )
 
 func c16ConcurrentScenarios(tier string) []*Scenario {
@@ -265,11 +269,99 @@ func c16AsyncScenarios(tier string) []*Scenario {
 	return out
 }
 
+// c16ListenerSubsetScenarios: which completion listeners fire does not depend on which of them are
+// registered. Every subset of {OnDone, OnSuccess, OnFailure} on the executor x a stack x an outcome x
+// sync / async: a registered listener fires exactly once when its situation occurred, never otherwise,
+// and reports the returned result.
+func c16ListenerSubsetScenarios(tier string) []*Scenario {
+	var out []*Scenario
+	type oc struct {
+		name  string
+		stack string
+		outs  []Out
+		succ  bool // the verdict of the policies (an outcome no policy classifies as a failure is a success, like everywhere in these checks)
+	}
+	cases := []oc{
+		{"ok", "none", []Out{{V: 1}}, true}, {"fail", "none", []Out{{Err: E1}}, true},
+		{"ok", "retry+breaker", []Out{{V: 1}}, true}, {"fail-then-ok", "retry+breaker", []Out{{Err: E1}, {V: 1}}, true}, {"fail", "retry+breaker", []Out{{Err: E1}, {Err: E1}}, false},
+		{"fail-replaced", "fallback", []Out{{Err: E1}}, true}, {"ok", "fallback", []Out{{V: 1}}, true}, {"fail-unhandled", "fallback", []Out{{Err: E2}}, true},
+	}
+	for mask := 0; mask < 8; mask++ {
+		for _, c := range cases {
+			for _, async := range []bool{false, true} {
+				mask, c, async := mask, c, async
+				name := fmt.Sprintf("C16/listener-subset done=%v success=%v failure=%v stack=%s %s async=%v", mask&1 != 0, mask&2 != 0, mask&4 != 0, c.stack, c.name, async)
+				out = append(out, &Scenario{Name: name, Bound: 0, Body: func() {
+					var pols []failsafe.Policy[int]
+					switch c.stack {
+					case "retry+breaker":
+						pols = []failsafe.Policy[int]{retrypolicy.Builder[int]().WithMaxRetries(1).Build(), circuitbreaker.Builder[int]().WithFailureThreshold(5).Build()}
+					case "fallback":
+						pols = []failsafe.Policy[int]{fallback.BuilderWithResult[int](9).HandleErrors(E1).Build()}
+					}
+					type seen struct {
+						n   int
+						v   int
+						err error
+					}
+					var done, succ, fail seen
+					rec := func(s *seen) func(failsafe.ExecutionDoneEvent[int]) {
+						return func(e failsafe.ExecutionDoneEvent[int]) { s.n++; s.v, s.err = e.Result, e.Error }
+					}
+					ex := failsafe.NewExecutor[int](pols...)
+					if mask&1 != 0 {
+						ex = ex.OnDone(rec(&done))
+					}
+					if mask&2 != 0 {
+						ex = ex.OnSuccess(rec(&succ))
+					}
+					if mask&4 != 0 {
+						ex = ex.OnFailure(rec(&fail))
+					}
+					k := 0
+					fn := func() (int, error) {
+						o := c.outs[min(k, len(c.outs)-1)]
+						k++
+						return o.V, o.Err
+					}
+					var v int
+					var err error
+					if async {
+						v, err = ex.GetAsync(fn).Get()
+					} else {
+						v, err = ex.Get(fn)
+					}
+					success := c.succ
+					chk := func(what string, registered, occurred bool, s seen) bool {
+						want := 0
+						if registered && occurred {
+							want = 1
+						}
+						if s.n != want {
+							vrt.Fail(fmt.Sprintf("%s fired %d times, want %d (registered=%v, the execution returned (%d,%v))", what, s.n, want, registered, v, err))
+							return false
+						}
+						if want == 1 && (s.v != v || s.err != err) {
+							vrt.Fail(fmt.Sprintf("%s reported (%d,%v), the execution returned (%d,%v)", what, s.v, s.err, v, err))
+							return false
+						}
+						return true
+					}
+					_ = chk("OnDone", mask&1 != 0, true, done) && chk("OnSuccess", mask&2 != 0, success, succ) && chk("OnFailure", mask&4 != 0, !success, fail)
+					vrt.Mark(fmt.Sprint(done.n, succ.n, fail.n, v, err))
+				}})
+			}
+		}
+	}
+	return out
+}
+
 func init() {
 	scenarioSets["C16"] = func(tier string) []*Scenario {
 		scs := append(c16ConcurrentScenarios(tier), hedgeTimingScenarios("C16/hedge-timing", tier, "events")...)
 		scs = append(scs, c16AsyncScenarios(tier)...)
 		scs = append(scs, c16StoryScenarios(tier)...)
+		scs = append(scs, c16ListenerSubsetScenarios(tier)...)
 		return append(scs, programScenarios("C16", pxPrograms(tier, "layers,events"), 1)...)
 	}
 }
